@@ -9,6 +9,7 @@ import (
 	"path/filepath"
 	"regexp"
 	"strings"
+	"sync"
 	"syscall"
 	"time"
 
@@ -252,5 +253,128 @@ func c16FaultSweep(r *vf.Run) {
 			}
 			r.Distinct(id)
 		})
+	}
+}
+
+// c16WriterLifecycles (round 8): (1) ONE writer object flushed again after its Flush succeeded (an explicit Flush plus
+// a deferred one): the second Flush fails and the file -- the writer's own output, or whatever has been put at the path
+// since -- stays what it is. (2) Several writers flushed AT THE SAME TIME onto one path, with the directory present and
+// with the directory missing: at most one Flush succeeds, and the file that exists afterwards is that writer's complete
+// index; every other Flush returns an error.
+func c16WriterLifecycles(r *vf.Run) {
+	dir := filepath.Join(r.Scratch, "lifecycles")
+	mustMkdir(dir)
+	digest := func(p string) string {
+		b, err := os.ReadFile(p)
+		if err != nil {
+			return "unreadable: " + err.Error()
+		}
+		h := sha256.Sum256(b)
+		return hex.EncodeToString(h[:8]) + fmt.Sprintf("/%d", len(b))
+	}
+	mk := func(p string, n int, mark string) *updog.IndexWriter {
+		w := updog.NewIndexWriter(p)
+		for i := 0; i < n; i++ {
+			_, _ = w.AddRow(map[string]string{"who": mark, "v": fmt.Sprint(i % 50)})
+		}
+		return w
+	}
+	if r.Want("same-writer-flushed-again") {
+		for k, replace := range []string{"", "foreign-bytes", "empty-read-only"} {
+			cid := fmt.Sprintf("same-writer-flushed-again/%d", k)
+			p := filepath.Join(dir, fmt.Sprintf("again-%d.updog", k))
+			w := mk(p, 10+1500*k%2000, "first")
+			r.Eval(1)
+			if err := w.Flush(); err != nil {
+				r.Violation(cid, "build", err.Error())
+				continue
+			}
+			switch replace {
+			case "foreign-bytes":
+				_ = os.Remove(p)
+				_ = os.WriteFile(p, []byte("somebody else's file at this path"), 0o644)
+			case "empty-read-only":
+				_ = os.Remove(p)
+				_ = os.WriteFile(p, nil, 0o444)
+			}
+			before := digest(p)
+			for again := 0; again < 2; again++ {
+				err := w.Flush()
+				wit := map[string]any{"file_at_the_path": map[string]string{"": "the writer's own finished index"}[replace] + replace, "flush_number": again + 2, "digest_before": before, "digest_after": digest(p), "error": fmt.Sprint(err)}
+				if _, serr := os.Lstat(p); serr != nil || digest(p) != before {
+					r.Violation(cid, "existing-file-changed", wit)
+					break
+				}
+				if err == nil {
+					r.Violation(cid, "write-onto-existing-path-succeeded", wit)
+					break
+				}
+			}
+			_ = os.Chmod(p, 0o644)
+			r.Count("writers_flushed_again_after_success", 1)
+			r.Distinct(cid)
+		}
+	}
+	if r.Want("simultaneous-flushes") {
+		rounds := r.Pick(60, 600)
+		for round := 0; round < rounds; round++ {
+			cid := "simultaneous-flushes"
+			sub := filepath.Join(dir, fmt.Sprintf("sim-%d", round))
+			missing := round%2 == 0
+			if !missing {
+				mustMkdir(sub)
+			}
+			p := filepath.Join(sub, "out.updog")
+			const n = 6
+			ws := make([]*updog.IndexWriter, n)
+			for i := range ws {
+				ws[i] = mk(p, 20+i, fmt.Sprintf("writer-%d", i))
+			}
+			errs := make([]error, n)
+			var wg sync.WaitGroup
+			gate := make(chan struct{})
+			for i := range ws {
+				wg.Add(1)
+				go func(i int) {
+					defer wg.Done()
+					<-gate
+					errs[i] = ws[i].Flush()
+				}(i)
+			}
+			close(gate)
+			wg.Wait()
+			r.Eval(1)
+			var winners []int
+			for i, e := range errs {
+				if e == nil {
+					winners = append(winners, i)
+				}
+			}
+			wit := map[string]any{"round": round, "directory_existed": !missing, "flushes_that_returned_nil": winners, "errors": fmt.Sprint(errs)}
+			if len(winners) > 1 {
+				r.Violation(cid, "write-onto-existing-path-succeeded", wit)
+				break
+			}
+			if len(winners) == 1 {
+				idx, err := updog.OpenIndex(p)
+				if err != nil {
+					wit["open_error"] = err.Error()
+					r.Violation(cid, "existing-file-changed", wit)
+					break
+				}
+				res, qerr := idx.Execute(&updog.Query{Expr: &updog.ExprEqual{Column: "who", Value: fmt.Sprintf("writer-%d", winners[0])}})
+				idx.Close()
+				if qerr != nil || res.Count != uint64(20+winners[0]) {
+					wit["winner_rows_found"] = fmt.Sprint(res, qerr)
+					r.Violation(cid, "existing-file-changed", wit)
+					break
+				}
+				r.Count("simultaneous_flush_rounds_with_one_winner", 1)
+			} else {
+				r.Count("simultaneous_flush_rounds_without_winner", 1)
+			}
+			os.RemoveAll(sub)
+		}
+		r.Distinct("simultaneous-flushes")
 	}
 }
